@@ -19,13 +19,19 @@ use vstd::std_specs::iter::IteratorSpec;
 
 //@@ INCLUDE gen_types.inc.rs
 //@@ TYPE src/check/context/arg/mod.rs | struct | FunctionArg
+/// the context's function signature lives in its own module: call.rs never names the type, and `Function` is also a
+/// variant of Expect that the code builds by its bare name
+pub mod ctxfn {
+    use super::*;
 //@@ TYPE src/check/context/function/mod.rs | struct | Function | strip_derive=Eq
+}
+pub use crate::ctxfn::Function as CtxFunction;
 //@@ TYPE src/check/ident.rs | enum | Identifier
 //@@ TYPE src/check/ident.rs | enum | IdentiCall
 /// stand-in for itertools::EitherOrBoth
 pub enum EitherOrBoth<A, B> { Both(A, B), Left(A), Right(B) }
 use crate::EitherOrBoth::{Both, Left, Right};
-use crate::Expect::*;
+
 pub struct Class { _x: u8 }
 
 verus! {
@@ -33,13 +39,12 @@ verus! {
 //@@ INCLUDE gen_model.inc.rs
 
 #[verifier::external_type_specification] pub struct ExFunctionArg(FunctionArg);
-#[verifier::external_type_specification] pub struct ExFunction(Function);
+#[verifier::external_type_specification] pub struct ExFunction(crate::ctxfn::Function);
 #[verifier::external_type_specification] pub struct ExIdentifier(Identifier);
 #[verifier::external_type_specification] pub struct ExIdentiCall(IdentiCall);
 #[verifier::external_type_specification] #[verifier::external_body] pub struct ExClass(Class);
 #[verifier::external_type_specification] #[verifier::reject_recursive_types(A)] #[verifier::reject_recursive_types(B)]
 pub struct ExEitherOrBoth<A, B>(EitherOrBoth<A, B>);
-pub assume_specification[<Expect as Clone>::clone](t: &Expect) -> (r: Expect) ensures r == *t;
 pub assume_specification<T>[<Box<T> as From<T>>::from](t: T) -> (r: Box<T>) ensures *r == t;
 pub assume_specification[<IdentiCall as Clone>::clone](t: &IdentiCall) -> (r: IdentiCall) ensures r == *t;
 
@@ -53,12 +58,12 @@ impl Context {
         ensures r matches Ok(c) ==> cls_nm(c) == class_name(*self, *ty), r is Err ==> r->Err_0@.len() >= 1,
     { unimplemented!() }
     #[verifier::external_body]
-    pub fn function(&self, f: &StringName, pos: Position) -> (r: TypeResult<Function>)
+    pub fn function(&self, f: &StringName, pos: Position) -> (r: TypeResult<CtxFunction>)
         ensures r matches Ok(fun) ==> fun == ctx_fun(*self, *f), r is Err ==> r->Err_0@.len() >= 1,
     { unimplemented!() }
 }
 /// the signature the context holds for a function name
-pub uninterp spec fn ctx_fun(ctx: Context, f: StringName) -> Function;
+pub uninterp spec fn ctx_fun(ctx: Context, f: StringName) -> CtxFunction;
 impl From<&Class> for Name {
     #[verifier::external_body]
     fn from(c: &Class) -> (r: Name) ensures r == cls_nm(*c) { unimplemented!() }
